@@ -25,7 +25,9 @@ theorem replace_path {h : Tree} {t : T} {node : Nat} {s : RmState} {F : Frame} {
     (eio : (plug (F :: up) .nil).io = t.io) (hfq : ¬ s.f = s.q) :
     ∃ t', Represents (removeNode h node) t' ∧ t'.keys = setErase (key h node) t.keys ∧ t'.BST ∧
       t'.idxs.Perm (t.idxs.erase node) ∧ t'.isRed = false ∧
-      (removeNode h node).nodes.size = s.t.nodes.size := by
+      (removeNode h node).nodes.size = s.t.nodes.size ∧
+      ∃ below Ff mid upf, up = below ++ Ff :: (mid ++ upf) ∧
+        t' = (plug (below ++ ⟨F.i, F.k, Ff.c, Ff.d, Ff.sib⟩ :: (mid ++ upf)) F.sib).setRed false := by
   obtain ⟨inv, dir, srt, nk, fok⟩ := i2
   have hqF : s.q = F.i := inv.hq
   rcases fok with ⟨_, hm⟩ | ⟨fn, below0, Ff, mid, upf, ectx, hFfi, hn, hlen⟩
@@ -125,7 +127,7 @@ theorem replace_path {h : Tree} {t : T} {node : Nat} {s : RmState} {F : Frame} {
       (L ++ (M ++ (F.sib.io ++ [(F.i, F.k)]))) ++ (Ff.sib.io ++ R) := by
     rw [plug_append]; simp only [plug]
     rw [hLR, mkT_io, hFfd, hM]; simp
-  generalize plug (below ++ ⟨F.i, F.k, Ff.c, Ff.d, Ff.sib⟩ :: (mid ++ upf)) F.sib = T3 at *
+  generalize hT3 : plug (below ++ ⟨F.i, F.k, Ff.c, Ff.d, Ff.sib⟩ :: (mid ++ upf)) F.sib = T3 at *
   have hnd3 : T3.idxs.Nodup := by
     have h1 := hr.2
     rw [← T.io_idxs, e1] at h1
@@ -133,7 +135,7 @@ theorem replace_path {h : Tree} {t : T} {node : Nat} {s : RmState} {F : Frame} {
     exact h1.sublist (List.Sublist.map _ (List.Sublist.append_left (List.sublist_cons_self _ _) _))
   obtain ⟨f1, f2⟩ := finish_root rr hnd3
   obtain ⟨g1, g2, g3, g4⟩ := erase_conclusion e1 e2 hbst hr.2
-  refine ⟨T3.setRed false, ?_, g1, g2, g3, g4, ?_⟩
+  refine ⟨T3.setRed false, ?_, g1, g2, g3, g4, ?_, ⟨below, Ff, mid, upf, rfl, by rw [hT3]⟩⟩
   · rw [eR]; exact f1
   · rw [eR, f2, rs, us]
 
